@@ -347,6 +347,14 @@ func max0(i int) int {
 	return i
 }
 
+// full: enough failing inputs are recorded; the rest of the space is skipped (and the run is no
+// longer exhaustive), so a tree on which every scenario hangs does not take hours
+func full() bool {
+	resMu.Lock()
+	defer resMu.Unlock()
+	return len(res.Failures) >= 6
+}
+
 func main() {
 	flag.String("input", "", "replay: the recorded input (the bounded space is re-run)")
 	out := flag.String("out", "", "result file")
@@ -384,6 +392,11 @@ func main() {
 	sem := make(chan struct{}, 16)
 	var wg sync.WaitGroup
 	for i, s := range all {
+		if full() {
+			res.Exhausted = false
+			res.Cases = i
+			break
+		}
 		if i%997 == 0 && len(res.Samples) < 8 {
 			res.Samples = append(res.Samples, s.String())
 		}
